@@ -38,11 +38,14 @@ def main():
         if rc:
             print("patch does not apply:", out); return 2
     # 1. without the change
-    rc, out = sh("git stash", cwd=wt)
+    # (git stash is shared between worktrees of one repository: toggle with apply -R / apply instead)
+    rc, out = sh("git apply -R seed/patch.diff", cwd=wt)
+    if rc:
+        print("cannot revert patch:", out); return 2
     rc0, out0 = sh("/venv/bin/python seed/demo.py", cwd=wt, env=env)
-    rcp, outp = sh("git stash pop", cwd=wt)
+    rcp, outp = sh("git apply seed/patch.diff", cwd=wt)
     if rcp:
-        print("stash pop failed", outp); return 2
+        print("re-apply failed", outp); return 2
     # 2. with the change
     rc1, out1 = sh("/venv/bin/python seed/demo.py", cwd=wt, env=env)
     meta["demo_without_change"] = {"exit": rc0, "tail": out0.strip().splitlines()[-1:] }
@@ -91,7 +94,7 @@ def main():
     for fn in ("patch.diff", "demo.py", "notes.md"):
         if os.path.exists(os.path.join(seed, fn)):
             shutil.copy(os.path.join(seed, fn), os.path.join(dst, fn))
-    meta["what_i_ran"] = ["git stash; python seed/demo.py (expect PASS); git stash pop; python seed/demo.py (expect FAIL)",
+    meta["what_i_ran"] = ["git apply -R seed/patch.diff; python seed/demo.py (expect PASS); git apply seed/patch.diff; python seed/demo.py (expect FAIL)",
                           "pytest pinned suite with the change, compared with BASELINE.json stable_pass",
                           "check.py <ID> --tier quick with RNAPOLIS_REPO=<scratch worktree>"]
     json.dump(meta, open(os.path.join(dst, "meta.json"), "w"), indent=1)
